@@ -72,6 +72,14 @@ Theorem C16_time_of_current_round : forall now p g, dom_p p -> dom_g g -> dom_t 
 Proof. intros now p g; exact (time_of_current_round time_buffer_bits now p g C16_buffer_const). Qed.
 Print Assumptions C16_time_of_current_round.
 
+(* the current round never goes back as time advances, and moves by at most one within a period *)
+Theorem C16_current_round_monotone : forall now now' p g,
+  dom_p p -> dom_g g -> dom_t g now -> dom_t g now' -> now <= now' ->
+  current_round now p g <= current_round now' p g /\
+  (now' - now < p -> current_round now' p g <= current_round now p g + 1).
+Proof. exact current_round_monotone. Qed.
+Print Assumptions C16_current_round_monotone.
+
 Theorem C16_before_genesis : forall now p g, now < g ->
   next_round now p g = (1, g) /\ current_round now p g = 1.
 Proof. exact before_genesis. Qed.
